@@ -11,6 +11,7 @@ pub mod latch;
 pub mod pc_close;
 pub mod pc_connect;
 pub mod srtpgate;
+pub mod srtpgate_pc;
 pub mod gen_sctp;
 pub mod sctp;
 pub mod signaling;
@@ -29,6 +30,7 @@ pub async fn dispatch(ctx: &Ctx) {
         "pc_connect" => pc_connect::run(ctx).await,
         "pc_close" => pc_close::run(ctx).await,
         "srtp_gate" => srtpgate::run(ctx).await,
+        "srtp_gate_pc" => srtpgate_pc::run(ctx).await,
         "hostile" => hostile::run(ctx).await,
         other => ctx.violate("HARNESS.scenario", format!("unknown scenario {other}")),
     }
@@ -52,7 +54,7 @@ pub fn generate(prop: &str, seed: u64, idx: u64, tier: Tier) -> Option<Plan> {
         "C06" => Some(icestun::generate(prop, seed, idx, tier)),
         "C10" => Some(pc_connect::generate(prop, seed, idx, tier)),
         "C17" => Some(pc_close::generate(prop, seed, idx, tier)),
-        "C14" => Some(srtpgate::generate(prop, seed, idx, tier)),
+        "C14" => Some(c14_generate(prop, seed, idx, tier)),
         "C07" => Some(hostile::generate(prop, seed, idx, tier)),
         _ => None,
     }
@@ -69,7 +71,7 @@ pub fn budget(prop: &str, tier: Tier) -> u64 {
         ("C06", t) => icestun::budget(prop, t),
         ("C10", t) => pc_connect::budget(prop, t),
         ("C17", t) => pc_close::budget(prop, t),
-        ("C14", t) => srtpgate::budget(prop, t),
+        ("C14", t) => srtpgate::budget(prop, t) + srtpgate_pc::budget(prop, t),
         ("C07", t) => hostile::budget(prop, t),
         ("C01", Tier::Quick) => 20_000,
         ("C01", Tier::Thorough) => 600_000,
@@ -79,5 +81,20 @@ pub fn budget(prop: &str, tier: Tier) -> u64 {
         ("C13", Tier::Thorough) => 150_000,
         (_, Tier::Quick) => 1000,
         (_, Tier::Thorough) => 50_000,
+    }
+}
+
+/// C14 is decided by two scenarios that share one index space: within every block of
+/// `srtpgate::budget + srtpgate_pc::budget` indices the first `srtpgate::budget` belong to `srtp_gate`
+/// (RtpTransport legs assembled by the harness; block 0 = its exhaustive part + swarm, unchanged) and the
+/// following `srtpgate_pc::budget` to `srtp_gate_pc` (real PeerConnection pairs). Further blocks only exist
+/// under VERIF_BUDGET_SCALE > 1 and continue both swarms.
+fn c14_generate(prop: &str, seed: u64, idx: u64, tier: Tier) -> Plan {
+    let (a, b) = (srtpgate::budget(prop, tier), srtpgate_pc::budget(prop, tier));
+    let (block, off) = (idx / (a + b), idx % (a + b));
+    if off < a {
+        srtpgate::generate(prop, seed, block * a + off, tier)
+    } else {
+        srtpgate_pc::generate(prop, seed, block * b + (off - a), tier)
     }
 }
